@@ -4,6 +4,7 @@ import (
 	"bufio"
 	"encoding/json"
 	"fmt"
+	"hash/fnv"
 	"os"
 	"os/exec"
 	"path/filepath"
@@ -434,10 +435,12 @@ func sigFile(s string) string {
 		}
 	}
 	out := sb.String()
-	if len(out) > 80 {
-		out = out[:80]
+	if len(out) > 70 {
+		out = out[:70]
 	}
-	return out
+	h := fnv.New32a()
+	h.Write([]byte(s))
+	return fmt.Sprintf("%s-%08x", out, h.Sum32())
 }
 
 func finish(agg *Agg, stdout *os.File, t0 time.Time) int {
@@ -491,7 +494,7 @@ func finish(agg *Agg, stdout *os.File, t0 time.Time) int {
 		os.WriteFile(path, b, 0o644)
 		if i < 25 {
 			fmt.Fprintf(stdout, "VIOLATION property=%s replay=%s\n", p.ID, path)
-			fmt.Fprintf(stdout, "  sig=%s count=%d first_case=%d\n  %s\n", fa.Sig, fa.Count, fa.Idx, firstN(fa.Detail, 600))
+			fmt.Fprintf(stdout, "  sig=%s count=%d first_case=%d\n  %s\n", fa.Sig, fa.Count, fa.Idx, firstN(firstLine(fa.Detail), 300))
 		}
 	}
 	// evidence
